@@ -234,3 +234,44 @@ Proof.
   - rewrite Hex, O, G. cbn [andb orb negb]. eexists _, _. split; reflexivity.
   - rewrite Hex, O, G. cbn [andb orb negb]. eexists _, _. split; reflexivity.
 Qed.
+
+(* ------------------------------------------------------------ C07 / C12 *)
+(* a target already handled in this command under another spelling is skipped *)
+Lemma run_loop_skips_seen job e t ts seen w evs errored :
+  (errored && negb (e_keep_going e)) = false ->
+  let '(d0, f) := from_name (dbs w) t in
+  existsb (Nat.eqb f) seen = true ->
+  run_loop job e (t :: ts) seen w evs errored = run_loop job e ts seen (set_db w d0) evs errored.
+Proof.
+  intro H. destruct (from_name (dbs w) t) as [d0 f] eqn:E. intro Hs.
+  cbn [run_loop]. now rewrite H, E, Hs.
+Qed.
+
+(* a target that an ancestor is building right now ends the command with 208
+   before any job is started for it *)
+Lemma run_loop_cycle job e t ts seen w evs errored :
+  (errored && negb (e_keep_going e)) = false ->
+  e_unlocked e = false ->
+  let '(d0, f) := from_name (dbs w) t in
+  existsb (Nat.eqb f) seen = false ->
+  existsb (Nat.eqb f) (e_cycles e) = true ->
+  run_loop job e (t :: ts) seen w evs errored = Ret (set_db w d0, evs, 208%Z).
+Proof.
+  intros H Hu. destruct (from_name (dbs w) t) as [d0 f] eqn:E. intros Hs Hc.
+  cbn [run_loop]. now rewrite H, E, Hs, Hu, Hc.
+Qed.
+
+(* a script asking for its own target is refused with 208 *)
+Lemma build_self_dependency fuel e me ts w :
+  e_target e = Some me -> e_unlocked e = false ->
+  existsb (bytes_eqb me) ts = true ->
+  build (S fuel) e MIfChange ts w = Ret (w, [], 208%Z).
+Proof.
+  intros Ht Hu Hin. cbn [build]. unfold frontend_deps. now rewrite Ht, Hu, Hin.
+Qed.
+
+(* a dependency met again while it is being checked is a cycle *)
+Lemma is_dirty_cycle_detected fuel runid w c f mx seen :
+  existsb (Nat.eqb f) seen = true ->
+  is_dirty (S fuel) runid w c f mx seen = Ret (VCycle, w, c, []).
+Proof. exact (is_dirty_cycle fuel runid w c f mx seen). Qed.
